@@ -128,6 +128,14 @@ def check_unitary_compilers(rng):
                 gates = random_gates(rng, modes, length, one, two)
                 if compiler == "passive":
                     gates = gates + [("LossChannel", (0.8,), (modes[0],), False)] if rng.rand() < 0.5 else gates
+                    # matrix-valued passive operations on 1..3 of the used modes, with genuinely complex matrices, at a random position
+                    from strawberryfields.utils import random_interferometer
+                    for nm, scale in (("Interferometer", 1.0), ("PassiveChannel", 0.8)):
+                        m = int(rng.randint(1, min(3, len(modes)) + 1))
+                        if nm == "Interferometer" and m == 1:
+                            m = min(2, len(modes))
+                        tg = tuple(int(x) for x in rng.choice(modes, m, replace=False))
+                        gates.insert(int(rng.randint(0, len(gates) + 1)), (nm, (scale * random_interferometer(m),), tg, False))
                 prog = build(n, gates)
                 label = f"{compiler} n={n} modes={modes} gates={[(g[0], g[2]) for g in gates]}"
                 try:
